@@ -55,6 +55,7 @@ type sys struct {
 	now    time.Time
 	dead   string
 	inited bool
+	mp     rvtypes.Params // reference model of the parameters: genesis values, updated when a parameter change is accepted (never read back from the module)
 }
 
 // New returns the pre-initial pseudo state (its operations choose the pool).
@@ -259,11 +260,16 @@ func (s *sys) Apply(op string) (obs, class string, viols []bfs.Viol) {
 			},
 		})
 		s.inited = true
+		s.mp = rvtypes.DefaultGenesisState().Params
+		s.mp.PerBlockReward = sdk.NewCoins(sdk.NewInt64Coin(dA, 1))
+		if got := s.params(); got.String() != s.mp.String() {
+			return "init", "init", []bfs.Viol{{Sig: "genesis-parameters-not-in-force", Detail: fmt.Sprintf("genesis set %s, the module reads %s", s.mp.String(), got.String())}}
+		}
 		return "init", "init", nil
 	}
 
 	// direct call of the real BeginBlocker on a throw-away context: collector must gain exactly the expected amount
-	p := s.params()
+	p := s.mp
 	before := s.balances()
 	supBefore := s.supply()
 	pool := before[poolAddr]
@@ -312,6 +318,15 @@ func (s *sys) Apply(op string) (obs, class string, viols []bfs.Viol) {
 				handlerErr = "rejected"
 			} else {
 				write()
+				if f[0] == "enable" {
+					s.mp.EnableVesting = f[1] == "true"
+				} else {
+					var cs []sdk.Coin
+					if jerr := json.Unmarshal([]byte(f[1]), &cs); jerr != nil {
+						panic(jerr)
+					}
+					s.mp.PerBlockReward = cs
+				}
 			}
 		}
 		s.c.End()
@@ -379,7 +394,7 @@ func (s *sys) Key() string {
 	for _, c := range p.PerBlockReward {
 		r = append(r, c.String())
 	}
-	return fmt.Sprintf("en=%v reward=%s pool=%s", p.EnableVesting, strings.Join(r, ","), pool)
+	return fmt.Sprintf("en=%v reward=%s pool=%s model=%s", p.EnableVesting, strings.Join(r, ","), pool, s.mp.String())
 }
 
 func (s *sys) Check() []bfs.Viol { return nil }
